@@ -3,14 +3,20 @@ NOTES = ("All checks are driven by /verif/check (python3, stdlib). Specification
          "/verif/harness (binary gv) and the goml CLI are rebuilt from /repo's working tree on every run with --cfg goml_verif. "
          "Exit 0 = held (KNOWN-FINDING lines for defects listed in known_findings.json), 1 = VIOLATION, 2 = tool error.")
 ENGINES = [
-    {"name": "tlc", "path": "/verif/spec", "serves_properties": ["C01", "C02", "C05", "C06", "C07", "C08", "C09", "C10", "C11", "C12", "C13", "C15", "C17", "C18"],
+    {"name": "tlc", "path": "/verif/spec", "serves_properties": ["C01", "C02", "C05", "C06", "C07", "C08", "C09", "C10", "C11", "C12", "C13", "C15", "C16", "C17", "C18"],
      "kind_free_text": "TLA+ specifications model-checked / simulated by TLC 1.8"},
-    {"name": "gv", "path": "/verif/harness", "serves_properties": ["C01", "C02", "C05", "C06", "C07", "C08", "C09", "C10", "C11", "C12", "C13", "C15", "C17", "C18"],
+    {"name": "gv", "path": "/verif/harness", "serves_properties": ["C01", "C02", "C05", "C06", "C07", "C08", "C09", "C10", "C11", "C12", "C13", "C15", "C16", "C17", "C18"],
      "kind_free_text": "Rust conformance harness with path dependencies on /repo/crates/*, and the goml CLI built from /repo"},
 ]
 PENDING = "check not built yet in this round (planned in DESIGN.md §4); not a claim that the technique cannot apply"
 NOT_APPLICABLE = {p: PENDING for p in ["C%02d" % i for i in range(1, 21)]}
 CHECKS = {
+    "C16": {
+        "level": "model_checking",
+        "technique": "Coherence.tla enumerates all package/placement configurations with their rule-violation sets and proves (TLC) that the orphan rule with acyclic resolved imports implies coherence; sampled configurations are written as directory trees, compiled by the real pipeline and the verdict class compared; accepted ones executed by GoSem",
+        "text": "48384 configurations of three packages (import edges incl. a missing package, misnamed directory, placement of a struct, a trait, <= 2 impls and a use site) are enumerated by TLC with the set of violated rules (missing, mismatch, cycle, unresolved, orphan, duplicate, noimpl); TLC checks OrphanRuleImpliesCoherence and UniqueMeaning on all of them. A stratified sample (every violation class; thorough: all) is compiled: accepted iff the model's set is empty, a rejection must carry one of the model's reasons, and an accepted program must print the value of the unique loaded implementation.",
+        "note": "Verdict classes are recognised from diagnostic texts by keyword; three packages only.",
+    },
     "C12": {
         "level": "model_checking",
         "technique": "TreeBuilder.tla (event replay + fuel) model-checked for all small token/event lists; recorded tokens, parser events, tree leaves and diagnostics of real parses validated by TreeTrace.tla (leaves re-derived from tokens+events, tiling, boundaries, ranges)",
